@@ -23,6 +23,7 @@ The destination's previous content is an explicit argument everywhere (as in Mod
 import GivaroModel.Model.Random
 import GivaroModel.Model.RandomDest
 import GivaroModel.Model.Montgomery
+import GivaroModel.Model.Rational
 namespace Givaro.Model.RandomRings
 open Givaro Givaro.Model.Random
 
@@ -139,6 +140,51 @@ def extDegree (e : Int) (kind : Nat) (arg : Int) : Int :=
 /-- one draw of an extension-field element into a vector that held `old` -/
 def extRandomD (p e : Int) (kind : Nat) (arg : Int) (fuel : Nat) (old : List Int) (g : Int) : Option (List Int × Int) :=
   polyRandomD 32 true p (extDegree e kind arg) fuel old g
+
+/-! ## QField<Rational> (qfield.h): numerator and denominator are draws of GMP's generator (abstract, as in Model/Random.lean) -/
+
+section QF
+open Givaro.Model.Rational
+variable {σ : Type} (G : RawGen σ)
+
+/-- `B.nume()`, `B.deno()` of `B = Rational(a, b)` (reduced by the constructor) -/
+def qfBound (a b : Int) : QRep := (mk3 a b 1).getD ⟨0, 1⟩
+
+/-- the four forms; `old` is what `r` held (`r = Rational(…)` assigns both members):
+      0  `random(g, r, int64_t s)`:        `r = Rational(Integer::random(s), Integer::nonzerorandom(s))` — `Integer::random(s)` is
+         `random_lessthan<true>` of `s` bits, `nonzerorandom(s)` the loop around it; the two arguments are evaluated right to left
+         by the compiler the library is built with (the order is unspecified in C++: the model follows g++)
+      1  `nonzerorandom(g, r, s)`:         `r = Rational(Integer::nonzerorandom(s), Integer::nonzerorandom(s))`
+      2  `random(g, r, const Rep& b)`:     `Integer::random(rnum, b.nume()); Integer::nonzerorandom(rden, b.deno()); r = Rational(rnum, rden)`
+      3  `nonzerorandom(g, r, b)`:         both through `nonzerorandom`
+    the generator argument `g` is not used by any of them -/
+def qfRandomD (kind : Nat) (a b : Int) (fuel : Nat) (old : QRep) (st : σ) : Option (QRep × σ) :=
+  match kind with
+  | 0 =>
+    match nonzeroWD G true a.toNat fuel 0 st with
+    | none => none
+    | some d => (mk3 (lessthan2expD G true a.toNat 0 d.2).1 d.1 1).map (fun q => (overwrite old q, (lessthan2expD G true a.toNat 0 d.2).2))
+  | 1 =>
+    match nonzeroWD G true a.toNat fuel 0 st with
+    | none => none
+    | some d =>
+      match nonzeroWD G true a.toNat fuel 0 d.2 with
+      | none => none
+      | some n => (mk3 n.1 d.1 1).map (fun q => (overwrite old q, n.2))
+  | 2 =>
+    match nonzeroID G true (qfBound a b).den fuel 0 (lessthanD G true (qfBound a b).num 0 st).2 with
+    | none => none
+    | some d => (mk3 (lessthanD G true (qfBound a b).num 0 st).1 d.1 1).map (fun q => (overwrite old q, d.2))
+  | 3 =>
+    match nonzeroID G true (qfBound a b).num fuel 0 st with
+    | none => none
+    | some n =>
+      match nonzeroID G true (qfBound a b).den fuel 0 n.2 with
+      | none => none
+      | some d => (mk3 n.1 d.1 1).map (fun q => (overwrite old q, d.2))
+  | _ => none
+
+end QF
 
 /-! ## GIV_randIter as an object: copy construction and copy assignment (givranditer.h) -/
 
